@@ -15,7 +15,7 @@ THEOREMS = [
     'Nix.C20.srcReferring_mem', 'Nix.C20.srcReferring_sublist',
     'Nix.C20.parentSource_sound', 'Nix.C20.parentSource_spec', 'Nix.C20.parentSource_none', 'Nix.C20.parentSource_root',
     'Nix.C20.inherited_eq_own_plus_unshadowed', 'Nix.C20.inherited_without_link', 'Nix.C20.inherited_link_target',
-    'Nix.C20.findDownstream_spec', 'Nix.C20.findAmongParents_spec', 'Nix.C20.findSideways_spec', 'Nix.C20.findRelated_chain',
+    'Nix.C20.findDownstream_spec', 'Nix.C20.findDownstream_complete', 'Nix.C20.findDownstream_sound', 'Nix.C20.findAmongParents_spec', 'Nix.C20.findSideways_spec', 'Nix.C20.findRelated_chain',
 ]
 LEAN_MODULES = ['NixModel.Props.C20']
 FLAVOUR = {'quick': 'plain', 'thorough': 'asan'}
